@@ -1,4 +1,5 @@
 import TakVerif.Proofs.BookLegal
+import TakVerif.Proofs.PosFactsInst
 
 /-!
 # C04 (opening-book clause) — book moves are legal in the position they are looked up for
@@ -73,6 +74,20 @@ theorem book_answers_images {basis : Array W} {size : Nat} {Inv : Pos → Prop} 
     obtain ⟨m, hm⟩ := pickChild_ok rnd e1.moves 0 0 { x := 0, y := 0, type := 0, slides := 0#32 }
       (fun c hc => (hall c hc).1) (by simpa using hsmall e1 he1)
     exact ⟨m, by simp [Book.getMove, hf, hm, bind, Except.bind, pure, Except.pure]⟩
+
+/-- **For the default games up to 6×6 `PosFacts` and `LinesOk` are theorems** (from `C01.move_refines`, the piece
+budget ≤ 62 and `C02`'s `analyze_ne_none`; book lines never contain the internal pass move — `ptn.ParseMove`
+cannot produce it): the stored replies are legal and `GetMove` answers legally, assuming only that the rebuilt
+images show the images (`ImageFact`, exercised by the `ssyms` op) and the absence of collisions. -/
+theorem book_moves_legal_default (basis : Array W) {size : Nat} (hs : size ≤ 6)
+    (himg : ImageFact basis (InvB basis)) {lines : List (List Tak.Move)}
+    (hnp : ∀ line ∈ lines, ∀ m ∈ line, m.type ≠ Facts.mtPass) {book : Book}
+    (hb : buildOpeningBook basis size lines = .ok book)
+    (q : Pos) (rnd : Nat → Nat → Nat) (hr : ∀ i n, 0 < n → rnd i n < n)
+    (hnc : ∀ q₀, BookImg basis size lines q₀ → q₀.hashOf = q.hashOf → Spec.abs q₀ = Spec.abs q)
+    (m : Tak.Move) (h : book.getMove q rnd = .ok (some m)) : SLegal q m :=
+  book_moves_legal (posFacts2_default basis size hs).toPosFacts himg
+    (linesOk_default basis size hs lines hnp) hb q rnd hr hnc m h
 
 /-! ## the hypotheses are satisfiable: a concrete book (zero Zobrist basis) -/
 
